@@ -82,6 +82,8 @@ pub enum AbsOp {
     /// n appends of 5.3 MiB: every one after the first seals a block, so n blocks are allocated
     /// (used to reach the 100-blocks-per-file roll-over)
     Fill { t: u16, n: u8 },
+    /// allocate n blocks through n auxiliary one-entry topics (cheap)
+    Touch { n: u8 },
 }
 
 #[derive(Clone, Debug, Serialize, Deserialize, PartialEq, Eq, Hash)]
@@ -405,17 +407,25 @@ pub fn case_strategy_topics(
         .boxed()
 }
 
-/// A history that starts by allocating 98..=100 blocks, so that the generated operations after
-/// it cross the file roll-over (block 101 goes to a new WAL file).
+/// A history that starts by allocating 96..=98 blocks (cheaply, through auxiliary topics) and
+/// continues with a batch of 3-5 entries that each need a block of their own, so that the WAL
+/// file roll-over (block 101 goes to a new file) happens in the middle of that batch's planning
+/// or in one of the generated operations after it.
 pub fn fileroll_case_strategy(mix: Mix, nops: std::ops::Range<usize>, max_topics: usize, mode: BoxedStrategy<Mode>) -> BoxedStrategy<Case> {
     (
         cfg_strategy(max_topics, mode),
-        (any::<u16>(), 98u8..=100),
+        (any::<u16>(), 96u8..=98),
+        proptest::collection::vec(((5u32 << 20) + 300_000..(9u32 << 20)).prop_map(Size::Large), 3..=5),
+        any::<bool>(),
         proptest::collection::vec(op_strategy(&mix, SizeProfile::Block), nops),
         drain_strategy(),
     )
-        .prop_map(|(cfg, (t, n), mut ops, drain)| {
-            ops.insert(0, AbsOp::Fill { t, n });
+        .prop_map(|(cfg, (t, n), sizes, single_first, mut ops, drain)| {
+            ops.insert(0, AbsOp::Batch { t, sizes });
+            if single_first {
+                ops.insert(0, AbsOp::Append { t, size: Size::Tiny(40_000) });
+            }
+            ops.insert(0, AbsOp::Touch { n });
             Case { cfg, ops, drain }
         })
         .boxed()
